@@ -419,7 +419,7 @@ def owner(unit, f):
         # the controller keeps the header frame and a registered status (C10 / C05 / C04); everything else functional is C02
         return ("C10", "C05", "C04") if "frame_ok" in f.snippet or "err_registered" in f.snippet else "C02"
     if unit == "mime":
-        return "C02"
+        return "C04" if f.kind in SAFETY_KINDS else "C02"
     if unit == "range_parse":
         # a panic in the range parser is both a crash of the server (C04) and a parser that does not report an error (C20);
         # the whole-file clauses are what C02 needs from it
@@ -508,7 +508,7 @@ PROPS = {
                         "Response::parse requires input of at most i32::MAX bytes (its byte counters are i32)"],
     },
     "C02": {
-        "units": ["static", "range_parse", "mime", "app", "controllers", "response_gen", "server"],
+        "units": ["static", "range_parse", "mime", "app", "controllers", "response_gen", "server", "forms"],
         "level": "proof",
         "falsifier": ["statics"],
         "case_prefixes": ["c02_"],
@@ -574,7 +574,7 @@ PROPS = {
                         "termination is proved; STACK DEPTH is not expressible in a contract: Request::parse, Response::parse, FormMultipartData::parse and the multipart/byteranges reader recurse once per line / per part and overflow a 2 MiB thread stack for inputs of 0.2 - 1 MB (known findings, reproduced on every run by the `stack` routine in child processes)"],
     },
     "C01": {
-        "units": ["static", "controllers"],
+        "units": ["static", "controllers", "range_parse"],
         "level": "proof",
         "falsifier": ["e2e"],
         "case_prefixes": ["c01_"],
@@ -601,7 +601,7 @@ PROPS = {
         "assumptions": ["std::fs / OpenOptions mutators are not declared at all in the shims: a call to one is an unsupported construct (exit 2), not a silent pass"],
     },
     "C09": {
-        "units": ["static", "response_gen", "cors", "controllers", "app"],
+        "units": ["static", "response_gen", "cors", "controllers", "app", "forms"],
         "level": "proof",
         "falsifier": ["e2e", "response", "cors", "ranges"],
         "case_prefixes": ["c09_", "generate_response", "get_headers", "_process"],
@@ -634,7 +634,7 @@ PROPS = {
         ],
     },
     "C04": {
-        "units": ["server", "request_parse", "range_parse", "static", "app", "controllers", "log", "forms", "multipart", "cors", "header_list", "response_gen"],
+        "units": ["server", "request_parse", "range_parse", "static", "app", "controllers", "log", "forms", "multipart", "cors", "header_list", "response_gen", "mime"],
         "level": "proof",
         "falsifier": ["e2e"],
         "case_prefixes": ["c04_"],
